@@ -27,6 +27,7 @@ ASSUMPTIONS = [
 TECHNIQUE = "Hypothesis-generated imaging scenarios against the normal equations built from an independent convolution operator; differential mapping vs w-tilde formalism"
 
 EPS = 1.0e-3
+UNITS = (0, 0, 0, -30, -10, 8, 12, 16, 20)   # data and noise in units of 2**k (noise up to ~5e6, down to ~1e-10)
 
 
 def _reference(case, sc):
@@ -54,7 +55,7 @@ def _reference(case, sc):
         f_eps[i, i] += EPS
     # natural rounding scales: magnitude of the summed terms (not of the possibly cancelling result)
     scale_d = float((np.abs(b).T @ np.abs(d / s ** 2)).max()) + 1e-300
-    scale_f = float((np.abs(b / s[:, None]).T @ np.abs(b / s[:, None])).max()) + EPS
+    scale_f = float((np.abs(b / s[:, None]).T @ np.abs(b / s[:, None])).max()) + 1e-7 * EPS + 1e-300
     return mm, b, dvec, f_eps, ranges, noreg, scale_d, scale_f
 
 
@@ -122,7 +123,25 @@ def body_normal_equations(case, ctx):
     (d0, f0, r0, m0, e0, _), (d1, f1_, r1, m1, e1, inv_w) = out["mapping"], out["w_tilde"]
     ctx.close(d1, d0, "cross/%s/data_vector" % pc, atol=1e-8 * scale_d, what="w_tilde vs mapping data_vector")
     ctx.close(f1_, f0, "cross/%s/curvature_matrix" % pc, atol=1e-8 * scale_f, what="w_tilde vs mapping curvature_matrix")
-    ctx.check(e0 == e1, "cross/%s/exception-mismatch" % pc, "mapping raised %s, w_tilde raised %s" % (e0, e1))
+    if e0 != e1:
+        # the documented rejection of reconstructions whose mapper values are "all identical" uses np.allclose with
+        # absolute tolerance 1e-8: when the true solution sits inside twice that band the two formalisms may
+        # legitimately fall on different sides (counted as a tie), otherwise a one-sided exception is a violation
+        ambiguous = False
+        try:
+            h_ = np.asarray(inv_w.regularization_matrix, dtype=float) if inv_w.regularization_matrix is not None else np.zeros_like(f_ref)
+            if np.linalg.cond(f_ref + h_) > 1e10:
+                ambiguous = True   # numerically singular system: whether LAPACK reports it is not a property of the formalism
+            sol_ = np.linalg.solve(f_ref + h_, dvec)
+            for (lo, hi), spec in zip(ranges, case["objs"]):
+                if spec["type"] != "func" and np.all(np.abs(sol_[lo:hi] - sol_[lo]) <= 2 * (1e-8 + 1e-5 * abs(sol_[lo]))):
+                    ambiguous = True
+        except np.linalg.LinAlgError:
+            ambiguous = True
+        if ambiguous:
+            ctx.tie(); ctx.label("check_reconstruction:boundary")
+        else:
+            ctx.fail("cross/%s/exception-mismatch" % pc, "mapping raised %s, w_tilde raised %s" % (e0, e1))
     if r0 is not None and r1 is not None:
         h = np.asarray(inv_w.regularization_matrix, dtype=float) if inv_w.regularization_matrix is not None else np.zeros_like(f_ref)
         cond = np.linalg.cond(f_ref + h)
@@ -145,8 +164,47 @@ def _case(**kw):
     return scene.scenarios(**kw)
 
 
+# ---------------------------------------------------------------------------------------------
+# one WTildeImaging object shared between inversions of DIFFERENT data (DatasetInterface / Preloads), as the
+# library itself does when the data is modified before the inversion (model-subtracted images)
+# ---------------------------------------------------------------------------------------------
+@st.composite
+def shared_case(draw):
+    c = draw(scene.scenarios(max_objs=2, img_kwargs=dict(max_inner=4, max_k=3, unit_exponents=(0, 0, 12)), obj_kwargs=dict(max_sub=2, max_mesh=4, kinds=("rect", "delaunay", "func"))))
+    n = len(c["data"])
+    c["data_sequence"] = [draw(st.lists(gens.reals(-10, 10), min_size=n, max_size=n)) for _ in range(draw(st.integers(1, 3)))]
+    c["via"] = draw(st.sampled_from(["dataset_interface", "preloads"]))
+    return c
+
+
+def body_shared(case, ctx):
+    import autoarray as aa
+    scene.scene_labels(case, ctx)
+    ctx.label("via:%s" % case["via"])
+    ctx.nt(len(case["data_sequence"]) >= 2 or True)
+    unit = 2.0 ** case.get("unit_exponent", 0)
+    sc0 = scene.build_scene(case)
+    w_tilde = sc0.dataset.w_tilde          # one shared table object
+    convolver = sc0.dataset.convolver
+    seq = [list(case["data"])] + [[v * unit for v in d] for d in case["data_sequence"]] + [list(case["data"])]
+    for k, data in enumerate(seq):
+        one = dict(case); one["data"] = data
+        sc = scene.build_scene(one)
+        mm, b, dvec, f_ref, ranges, noreg, scale_d, scale_f = _reference(one, sc)
+        settings = _settings(aa, True)
+        if case["via"] == "dataset_interface":
+            ds = aa.DatasetInterface(data=sc.dataset.data, noise_map=sc.dataset.noise_map, grids=sc.dataset.grids, convolver=convolver, w_tilde=w_tilde)
+            inv = aa.Inversion(dataset=ds, linear_obj_list=sc.objs, settings=settings)
+        else:
+            inv = aa.Inversion(dataset=sc.dataset, linear_obj_list=sc.objs, settings=settings, preloads=aa.Preloads(w_tilde=w_tilde, use_w_tilde=True))
+        key = "shared-w_tilde/%s/%s" % (case["via"], "first" if k == 0 else "later")
+        ctx.close(np.array(inv.data_vector, dtype=float), dvec, key + "/data_vector", atol=1e-8 * scale_d, what="data_vector of inversion %d sharing one WTildeImaging" % k)
+        ctx.close(np.array(inv.curvature_matrix, dtype=float), f_ref, key + "/curvature_matrix", atol=1e-8 * scale_f, what="curvature_matrix of inversion %d" % k)
+
+
 SUBCHECKS = [
     SubCheck("normal-equations", body_normal_equations,
-             strategy=_case(max_objs=3, img_kwargs=dict(max_inner=5, max_k=5), obj_kwargs=dict(max_sub=3, max_mesh=4)),
+             strategy=_case(max_objs=3, img_kwargs=dict(max_inner=5, max_k=5, unit_exponents=UNITS), obj_kwargs=dict(max_sub=3, max_mesh=4)),
              examples={"quick": 1600, "thorough": 16000}, shards={"quick": 16, "thorough": 16}),
+    SubCheck("shared-w_tilde", body_shared, strategy=shared_case(), examples={"quick": 320, "thorough": 3200}, shards={"quick": 8, "thorough": 16}),
 ]
